@@ -12,11 +12,11 @@ CONSTANTS
   Modes = {"bin"}
   Protos = {4}
   Secs = {2}
-  MaxChunks = 3
+  MaxChunks = 2
   P1MaxChunks = 1
   MaxFiles = 1
-  MaxPauses = 1
-  StartSizes = {10240}
+  MaxPauses = 0
+  StartSizes = {40960}
   Variant = "coded"
 INVARIANTS TypeOK SizeInRange ChunksInRange NeverRejectedByReceiver NothingQueuedIsRejected ProbeEndsOnce
   TokenPaired EncoderNotStuck OneChunkWhileProbing DoubleOnlyWhenAllowed ShrinkOnlyWhenSlow
